@@ -487,9 +487,87 @@ func c17LazyInside(w *fw.W, idx int, r *fw.Rand) {
 	w.Note(fw.Hash64(desc))
 }
 
+// c17UnreadParser: a stream syntax with two notations ("Y12!" and "Y12", lead character ASCII or
+// multi-byte) whose parser rewinds a failed first notation with Unread() instead of
+// ResetAttempt(): Unread gives back exactly what Read / ReadDigits consumed, one character a call.
+func c17UnreadParser(w *fw.W, idx int, r *fw.Rand) {
+	lead := fw.PickT(r, []rune{'Y', '骰', 'é', '🎲'})
+	k1, k2 := r.Intn(1000), r.Intn(1000)
+	bang := r.Bool()
+	op1 := fmt.Sprintf("%c%d", lead, k1)
+	if bang {
+		op1 += "!"
+	}
+	op2 := fmt.Sprintf("%c%d", lead, k2)
+	src := op1 + r.Pick([]string{" + ", "+", " * 1 + "}) + op2
+	desc := fmt.Sprintf("unread-parser src=%q", src)
+	w.Begin(idx, desc)
+	cfg := AllDice()
+	cfg.Seed = r.U64() | 1
+	vm := cfg.NewVM()
+	var log []string
+	_ = vm.RegCustomDiceParser(func(ctx *ds.Context, s *ds.CustomDiceStream) (*ds.CustomDiceParseResult, error) {
+		c, ok := s.Read()
+		if !ok || c != lead {
+			s.ResetAttempt()
+			return &ds.CustomDiceParseResult{Matched: false}, nil
+		}
+		d, ok := s.ReadDigits()
+		if !ok {
+			s.ResetAttempt()
+			return nil, nil
+		}
+		if nx, ok := s.Read(); ok && nx == '!' {
+			return &ds.CustomDiceParseResult{Matched: true, Groups: []string{s.Current(), d, "A"}}, nil
+		}
+		// second notation: give everything back one character at a time and read it again
+		for s.Unread() {
+		}
+		if c2, ok := s.Read(); !ok || c2 != lead {
+			s.ResetAttempt()
+			return nil, nil
+		}
+		d2, ok := s.ReadDigits()
+		if !ok {
+			s.ResetAttempt()
+			return nil, nil
+		}
+		return &ds.CustomDiceParseResult{Matched: true, Groups: []string{s.Current(), d2, "B"}}, nil
+	}, func(ctx *ds.Context, groups []string, _ any) (*ds.VMValue, string, error) {
+		log = append(log, strings.Join(groups, "|"))
+		k, _ := strconv.Atoi(groups[1])
+		return ds.NewIntVal(ds.IntType(k)), "", nil
+	})
+	var err error
+	pv, st := fw.Guard(func() { err = vm.Run(src) })
+	w.Eval(1)
+	w.Count("unread_parser_programs", 1)
+	if pv != nil {
+		w.Violate(idx, "panic", fw.PanicKey(pv, st), desc, fmt.Sprint(pv), nil)
+		return
+	}
+	kindA := "B"
+	if bang {
+		kindA = "A"
+	}
+	want := []string{fmt.Sprintf("%s|%d|%s", op1, k1, kindA), fmt.Sprintf("%s|%d|B", op2, k2)}
+	if err != nil || fmt.Sprint(log) != fmt.Sprint(want) {
+		w.Violate(idx, "extension", "ext|unread-parser|log", desc, fmt.Sprintf("error %v, handler log %q, want %q", err, log, want), nil)
+		return
+	}
+	if got, ok := vm.Ret.ReadInt(); !ok || (int(got) != k1+k2 && !strings.Contains(src, "* 1")) {
+		w.Violate(idx, "extension", "ext|unread-parser|value", desc, fmt.Sprintf("result %s, want %d", vm.Ret.ToString(), k1+k2), nil)
+	}
+	w.Note(fw.Hash64(desc))
+}
+
 func c17Match(w *fw.W, idx int, r *fw.Rand) {
 	if r.P(1, 20) {
 		c17Overlap(w, idx, r)
+		return
+	}
+	if r.P(1, 20) {
+		c17UnreadParser(w, idx, r)
 		return
 	}
 	if r.P(1, 20) {
